@@ -622,8 +622,19 @@ func isSizeEq(p *Program, e *evaluator, f *ssa.Function, bo *ssa.BinOp, base ssa
 		return false
 	}
 	sub, ok := diff.(*ssa.BinOp)
-	if !ok || sub.Op != token.SUB {
+	if !ok || (sub.Op != token.SUB && sub.Op != token.ADD) {
 		return false
+	}
+	// the minuend and the subtrahend: to - from, or (-from) + to in either order
+	minuend, subtrahend := sub.X, sub.Y
+	if sub.Op == token.ADD {
+		if ng, isNeg := sub.X.(*ssa.UnOp); isNeg && ng.Op == token.SUB {
+			minuend, subtrahend = sub.Y, ng.X
+		} else if ng, isNeg := sub.Y.(*ssa.UnOp); isNeg && ng.Op == token.SUB {
+			minuend, subtrahend = sub.X, ng.X
+		} else {
+			return false
+		}
 	}
 	// resolve a load to the session field it denotes (directly or through a copy)
 	fieldOf := func(v ssa.Value) string {
@@ -662,5 +673,5 @@ func isSizeEq(p *Program, e *evaluator, f *ssa.Function, bo *ssa.BinOp, base ssa
 		}
 		return ""
 	}
-	return fieldOf(sub.X) == curSess.to && fieldOf(sub.Y) == curSess.from
+	return fieldOf(minuend) == curSess.to && fieldOf(subtrahend) == curSess.from
 }
